@@ -4,7 +4,8 @@
    Tables: gen/Params.v regenerated from params.hpp on this run. *)
 From Coq Require Import ZArith List.
 From NTT Require Import Functors Algebra Inverse NTTInst NTTClosed NTTTables Shards Permut Tables FlatTable Fused GenEq.
-From NTT.gen Require Gen.
+From NTT.gen Require Gen GenLoop.
+From NTT Require Structural GenLoopEq.
 From NTT.gen Require Import Params.
 Local Open Scope Z_scope.
 
@@ -103,3 +104,20 @@ Theorem C02_source_degree2 : forall p u0 u1,
   (0 <= 2 * p < 2 ^ 64 -> Gen.gen_deg2_u64 p u0 u1 = Some (GenEq.strict1 p (Fused.ladd 64 p u0 u1), GenEq.strict1 p (Fused.lsub 64 p u0 u1))).
 Proof. intros p u0 u1. exact (conj (GenEq.gen_deg2_16 p u0 u1) (conj (GenEq.gen_deg2_32 p u0 u1) (GenEq.gen_deg2_64 p u0 u1))). Qed.
 Print Assumptions C02_source_degree2.
+(* THE LOOPS OF THE SOURCE (gen/GenLoop.v, translated by tools/cxxloop2coq.py on every run): poly::core::ntt with ntt_loop<serial>::run --
+   loop bounds, the index expressions N*r+i(+N/2), the table pointers advancing by N/2 per layer, the last two layers four by four, the
+   final strict reduction, every array access bounds-checked -- computes, on the tables as the library lays them out (one flat array per
+   table, Shoup companions beside it), exactly Structural.ntt_core, the model the theorems above are stated on.  Any degree 4..2^30. *)
+Theorem C02_source_loops_serial : forall k p om x0, (2 <= k <= 30)%nat -> 1 < p -> length x0 = (2 ^ k)%nat ->
+  let W := FlatTable.flat p k om in let tws := fun lvl => List.nth lvl (Tables.prep p k om) nil in
+  (p < 2 ^ 14 -> List.Forall (fun v => 0 <= v < 2 ^ 16) x0 ->
+     GenLoop.gen_ntt_serial_u16 (Z.of_nat (2 ^ k)) x0 0 W 0 (List.map (fun v => (v * 2 ^ 16) / p) W) 0 p =
+     Some ((Structural.ntt_core 16 p k tws x0, Z.of_nat (2 ^ k), Z.of_nat (FlatTable.off k (k - 2)), Z.of_nat (FlatTable.off k (k - 2))), true)) /\
+  (4 * p <= 2 ^ 32 -> List.Forall (fun v => 0 <= v < 2 ^ 32) x0 ->
+     GenLoop.gen_ntt_serial_u32 (Z.of_nat (2 ^ k)) x0 0 W 0 (List.map (fun v => (v * 2 ^ 32) / p) W) 0 p =
+     Some ((Structural.ntt_core 32 p k tws x0, Z.of_nat (2 ^ k), Z.of_nat (FlatTable.off k (k - 2)), Z.of_nat (FlatTable.off k (k - 2))), true)) /\
+  (4 * p <= 2 ^ 64 -> List.Forall (fun v => 0 <= v < 2 ^ 64) x0 ->
+     GenLoop.gen_ntt_serial_u64 (Z.of_nat (2 ^ k)) x0 0 W 0 (List.map (fun v => (v * 2 ^ 64) / p) W) 0 p =
+     Some ((Structural.ntt_core 64 p k tws x0, Z.of_nat (2 ^ k), Z.of_nat (FlatTable.off k (k - 2)), Z.of_nat (FlatTable.off k (k - 2))), true)).
+Proof. exact GenLoopEq.source_loops_serial. Qed.
+Print Assumptions C02_source_loops_serial.
